@@ -611,6 +611,12 @@ class Interp:
             ok, v = self.lookup(k)
             if ok:
                 return v
+            cls = self.types.get(base.name)
+            if cls and f"{cls}.{e.attr}" in self.inline and self.idx.has_cls(cls):
+                for c in self.idx.mro(cls):
+                    pr = c.properties.get(e.attr)
+                    if pr and "get" in pr:
+                        return self.call_function(pr["get"], {}, base.name)
             return Residual(k)
         if isinstance(base, (str, list, dict, tuple, int, float)):
             return _Bound(base, e.attr)
@@ -730,9 +736,16 @@ class Interp:
     def compare(self, op, a, b):
         f, sym = _CMP[op]
         if isinstance(a, Residual) or isinstance(b, Residual) or isinstance(a, Obj) or isinstance(b, Obj):
+            # an abstract object and the symbolic reference of the same name denote the same thing (e.g. `self`)
+            if isinstance(a, Obj) and isinstance(b, Residual) and b.text == a.name:
+                b = a
+            elif isinstance(b, Obj) and isinstance(a, Residual) and a.text == b.name:
+                a = b
             # identity / equality of a symbol with itself
             if isinstance(a, (Residual, Obj)) and isinstance(b, (Residual, Obj)) and a == b and op in (ast.Is, ast.Eq):
                 return True
+            if isinstance(a, (Residual, Obj)) and isinstance(b, (Residual, Obj)) and a == b and op in (ast.IsNot, ast.NotEq):
+                return False
             if op in (ast.Is, ast.IsNot) and (isinstance(a, Obj) or isinstance(b, Obj)):
                 # an Obj is a definite object: never None/True/False
                 return op is ast.IsNot
@@ -853,6 +866,11 @@ class Interp:
         if h is not None:
             return h(self, e, recv, args, kwargs)
         # inlining
+        if recv is not None and isinstance(recv, Obj) and self.types.get(recv.name) and f"{self.types[recv.name]}.{meth}" in self.inline:
+            fi = self.idx.method(self.types[recv.name], meth)
+            a = dict(kwargs)
+            a["__pos__"] = args
+            return self.call_function(fi, a, recv.name)
         if recv is not None and isinstance(recv, Residual):
             cls = self.types.get(recv.text)
             if cls and (f"{cls}.{meth}" in self.inline):
